@@ -304,3 +304,16 @@ Definition batched_query (d : pdb) (q : query) : ranswer * pdb :=
   | QState n arg => (b_read_raft_state d n arg, d)
   | QSnap n => p_get_snapshot d n
   end.
+
+(* ---- runs: mutations interleaved with queries ---- *)
+Definition batched_pstep (d : option pdb) (p : pop) : option pdb :=
+  match d with
+  | None => None
+  | Some d =>
+    match p with
+    | PMut o => batched_step d o
+    | PQry q => Some (snd (batched_query d q))
+    end
+  end.
+Definition batched_prun (l : list pop) : option pdb := fold_left batched_pstep l (Some pdb_init).
+Definition batched_observe (d : pdb) (q : query) : answer := canon q (fst (batched_query d q)).
